@@ -286,10 +286,14 @@ def scn_stock(params):
             out["inconclusive"] = "no-ifconfig"
             return out
         frames = []
+        upframes = []
         for i in range(6):
             f = proto.make_frame("10.9.0.1", ctip, (0xC11 << 28) | (params["idx"] << 8) | i, rng.choice([300, 600, 1000]), rng.choice(["random", "random", "text"]), rng)
             frames.append(f)
             hs.down_queue.append(f)
+            u = proto.make_frame(ctip, "10.9.0.1", (0xC11 << 28) | (params["idx"] << 8) | (64 + i), rng.choice([60, 300, 600]), rng.choice(["random", "text"]), rng)
+            upframes.append(u)
+            k.at(k.now + (i + 1) * 4 * US, k.offer_tun, "cli0", u, 64 + i)
         k.run(k.now + 150 * US)
         h = sim.health(c)
         if h != "running":
@@ -307,7 +311,27 @@ def scn_stock(params):
                                       "after a successful handshake with a server that follows the protocol document (type %s, downstream %s, fragment size %d as set by the client), %d of %d queued packets never reached the client (%d fragments sent)"
                                       % (last_qt, hs.downenc, hs.fragsize, len(missing), len(judged), hs.down_fragments_sent),
                                       dict(wit, stderr=k.stderr_text(c, 800))))
-        elif len(judged) >= 3:
+        # upstream: what the model server reassembled, in the codec the client told it, must be the packets the client accepted
+        accepted = []
+        pending = None
+        for ev in k.log:
+            if ev[2] != "cli0":
+                continue
+            if ev[1] == "tun_read":
+                pending = bytes(ev[3]["data"])
+            elif ev[1] == "send" and pending is not None:
+                accepted.append(pending)
+                pending = None
+            elif ev[1] == "wait":
+                pending = None
+        up_missing = [u for u in upframes if u in accepted and u not in hs.up_frames]
+        out["stats"]["stock_up_frames_delivered"] = sum(1 for u in upframes if u in hs.up_frames)
+        if up_missing and not out["violations"]:
+            out["violations"].append(("C11:stock-peer:up:lost:%s:%s:%s" % (last_qt, hs.upcodec.name, "/".join(m["qcfg"])),
+                                      "after a successful handshake with a server that follows the protocol document (type %s, upstream %s), %d of %d packets the client took from its tun were not reassembled intact by that server (it reassembled %d, %d of them undecodable)"
+                                      % (last_qt, hs.upcodec.name, len(up_missing), len(upframes), len(hs.up_frames), sum(1 for x in hs.up_frames if x is None)),
+                                      dict(wit, stderr=k.stderr_text(c, 800))))
+        if not out["violations"] and len(judged) >= 3:
             out["nontrivial"].append(repr(("stock-peer", last_qt, hs.downenc, "F<=130" if hs.fragsize <= 130 else "F<=600" if hs.fragsize <= 600 else "F>600", m["limit"])))
         if params["idx"] % 50 == 0:
             out["sample"] = {"stock_peer": True, "member": m, "qtype": last_qt, "downenc": hs.downenc, "fragsize": hs.fragsize,
